@@ -274,6 +274,7 @@ fn socket_scenario(ty: Ty, cuts: Vec<usize>) -> Verdict {
         yields: false,
         select: false,
         policy: 0,
+        coop: false,
     });
     let (stream, _wire, expect) = socket_stream(ty);
     let c = e3::raw_conn("p");
